@@ -196,6 +196,9 @@ fn run_mws_case(sink: &mut Sink, s: &mut Stream, p: &Pair, sch: &[Fld], kind: &s
     let (ls, rs) = (batch_struct(&p.l), batch_struct(&p.r));
     let schema = schema_of(sch);
     let res = catch(|| p.l.merge_with_schema(&p.r, &schema));
+    if res.is_err() && std::env::var("C40_DEBUG_PANIC").map(|v| v == format!("mws{}", s.len())).unwrap_or(false) {
+        let _ = p.l.merge_with_schema(&p.r, &schema); // debugging aid: let the panic message through
+    }
     let (oc, oj, parsed) = out_batch(&res);
     let mut cs = BTreeSet::new();
     classes_mws(&ls, &rs, sch, &mut cs);
@@ -426,17 +429,31 @@ pub fn run(args: &Args) -> i32 {
         sink.count("deep_copy");
         sink.nontrivial(&dump(a.as_ref()));
         s_dc.push(dump(a.as_ref()), dump(c.as_ref()), case);
-        let c = deep_copy_array_sliced(a.as_ref());
+        let class = if a.offset() != 0 { Some(K_BOOLOFF) } else { None };
+        let c = match catch(|| deep_copy_array_sliced(a.as_ref())) {
+            Ok(c) => c,
+            Err(_) => {
+                sink.oracle_fail(class, "deep_copy_array_sliced panicked", json!({"array": dump_json(a.as_ref()), "rows": rows_json(&rows)}));
+                sink.count("deep_copy_sliced:panic");
+                continue;
+            }
+        };
         let of = offset_free(c.as_ref());
         let (oc, _, crow) = describe_coq(c.as_ref());
         let case = json!({"array": dump_json(a.as_ref()), "rows": rows_json(&rows), "copy": dump_json(c.as_ref())});
+        // Array::offset() != 0 (a sliced top-level Boolean array): extend() double-counts the offset
         if crow == rows && of && c.data_type() == a.data_type() {
             sink.oracle_ok();
         } else {
-            sink.oracle_fail(None, "deep_copy_array_sliced: the copy has different logical rows or still carries offsets / untrimmed children", case.clone());
+            sink.oracle_fail(class, "deep_copy_array_sliced: the copy has different logical rows or still carries offsets / untrimmed children", case.clone());
         }
-        sink.count("deep_copy_sliced");
-        s_ds.push(dump(a.as_ref()), format!("({}, {})", oc, coq::b(of)), case);
+        if class.is_some() {
+            // rows past the view are not determined by the model's inputs: not a correspondence case
+            sink.count("deep_copy_sliced:class:deep_copy_sliced_bool_offset");
+        } else {
+            sink.count("deep_copy_sliced");
+            s_ds.push(dump(a.as_ref()), format!("({}, {})", oc, coq::b(of)), case);
+        }
     }
     sink.add(s_dc);
     sink.add(s_ds);
